@@ -91,19 +91,30 @@ theorem expandF_neg_perm (vecsOf : Nat → List I3) (hv : ∀ k, ((vecsOf k).map
     exact (hv kw.1).map _
   · simp
 
+/-- the shell table used by `find_shells`: every entry is closed under negation -/
+theorem tableFn_neg_perm (nrm : V3 Rat → Rat) (hnrm : ∀ v : V3 Rat, nrm (fun c => -v c) = nrm v)
+    (basis : Fin 3 → Fin 3 → Rat) (n : Nat) (th : Rat) (hth : 0 ≤ th) (ns k : Nat) :
+    ((tableFn (shellTableList nrm basis n th ns) k).map negI).Perm (tableFn (shellTableList nrm basis n th ns) k) := by
+  rw [tableFn_shellTableList]
+  split
+  · exact shellVecs_neg_perm nrm hnrm basis n th hth k
+  · simp
+
 /-- what holds whenever `find_shells` returns -/
 theorem findShells_sound_aux (par : List Nat → Nat → Bool) (kernel : List Nat → Option (List Rat)) (nrm : V3 Rat → Rat)
     (hnrm : ∀ v : V3 Rat, nrm (fun c => -v c) = nrm v)
     (basis : Fin 3 → Fin 3 → Rat) (n : Nat) (th tol eps : Rat) (hth : 0 ≤ th) (nshells : Nat) (dk : Rat)
     (st : List (Rat × I3)) (h : findShells par kernel nrm basis n th tol eps nshells = some st) :
     ∃ (sel : List Nat) (ws : List Rat),
-      kernel sel = some ws ∧ st = expandF (shellVecs nrm basis n th) eps sel ws ∧
-      resid2 (fun k => shellMat basis (shellVecs nrm basis n th k)) sel ws ≤ tol * tol ∧
+      kernel sel = some ws ∧ st = expandF (tableFn (shellTableList nrm basis n th nshells)) eps sel ws ∧
+      resid2 (fun k => shellMat basis (tableFn (shellTableList nrm basis n th nshells) k)) sel ws ≤ tol * tol ∧
       ((toStencil basis dk st).map BPoint.neg).Perm (toStencil basis dk st) ∧
       ∀ a c, (mom2 (toStencil basis dk st) a c
-                + droppedEye (fun k => shellMat basis (shellVecs nrm basis n th k)) eps sel ws a c - delta3 a c)
+                + droppedEye (fun k => shellMat basis (tableFn (shellTableList nrm basis n th nshells) k)) eps sel ws a c
+                - delta3 a c)
              * (mom2 (toStencil basis dk st) a c
-                + droppedEye (fun k => shellMat basis (shellVecs nrm basis n th k)) eps sel ws a c - delta3 a c)
+                + droppedEye (fun k => shellMat basis (tableFn (shellTableList nrm basis n th nshells) k)) eps sel ws a c
+                - delta3 a c)
              ≤ tol * tol := by
   unfold findShells at h
   simp only at h
@@ -115,7 +126,7 @@ theorem findShells_sound_aux (par : List Nat → Nat → Bool) (kernel : List Na
     refine ⟨sel, ws, hk, rfl, hr, ?_, ?_⟩
     · rw [toStencil_neg]
       unfold toStencil
-      exact (expandF_neg_perm _ (fun k => shellVecs_neg_perm nrm hnrm basis n th hth k) eps sel ws).map _
+      exact (expandF_neg_perm _ (fun k => tableFn_neg_perm nrm hnrm basis n th hth nshells k) eps sel ws).map _
     · intro a c
       rw [mom2_expandF, kept_add_dropped]
       exact le_trans (entry_sq_le_resid2 _ sel ws a c) hr
